@@ -54,3 +54,44 @@ def execute (maxProviders maxErrors : Nat) (outcomes : List Outcome) : ExecResul
   execLoop maxProviders maxErrors outcomes 0 ⟨[], []⟩
 
 end Btc
+
+namespace Btc
+
+/-! ## The cache in front of the providers
+
+`Service.gettransaction / getrawtransaction / blockcount …`: a query for key `k` is answered from
+the cache when an entry exists, otherwise the providers are asked and a successful answer is
+stored. -/
+
+abbrev Cache := List (Nat × Nat)
+
+def cacheGet (c : Cache) (k : Nat) : Option Nat := (c.find? fun p => p.1 == k).map (·.2)
+
+/-- `store_*`: an existing entry is kept (the cache tables have a unique key) -/
+def cachePut (c : Cache) (k v : Nat) : Cache := if (cacheGet c k).isSome then c else c ++ [(k, v)]
+
+/-- one query: key, and what every provider would answer -/
+structure Query where
+  key : Nat
+  maxProviders : Nat
+  maxErrors : Nat
+  outcomes : List Outcome
+  deriving Repr
+
+def queryStep (c : Cache) (q : Query) : Cache × ExecResult :=
+  match cacheGet c q.key with
+  | some v => (c, .value v)
+  | none =>
+    match (execute q.maxProviders q.maxErrors q.outcomes).1 with
+    | .value v => (cachePut c q.key v, .value v)
+    | r => (c, r)
+
+/-- a history of queries: final cache and the answers, in order -/
+def runQueries : Cache → List Query → Cache × List ExecResult
+  | c, [] => (c, [])
+  | c, q :: qs =>
+    let r := queryStep c q
+    let rest := runQueries r.1 qs
+    (rest.1, r.2 :: rest.2)
+
+end Btc
